@@ -43,6 +43,12 @@ def x_obligations(tier):
                 continue
             o.append(Obl(f"C18-publish[{conf},{pre}v{dp}?{suf}]", M, "publish", env=dict(env0, VF_DP=dp), timeout=T, path_timeout=200, family="C18-new",
                          bound=f"existing v{dp}<c>; get_new, publish, get_new again"))
+    for (conf, pre, suf, base) in (SKEL[1], SKEL[0], SKEL[5]):
+        for dp in ["00", "99"]:
+            if conf == "shipped" and dp == "99" and tier == "quick":
+                continue
+            o.append(Obl(f"C18-publish-star[{conf},{pre}v{dp}?{suf}]", M, "publish_star", env={"VF_CONF": conf, "VF_PRE": pre, "VF_SUF": suf, "VF_BASE": base, "MINI_VDIGITS": "3", "VF_DP": dp, "VF_CACHES": "1"},
+                         timeout=T, path_timeout=200, family="C18-new", bound=f"existing v{dp}<c>; get_next on the '*' / '>' version Sid, publish, get_next again -- spil's caches ON"))
     o.append(Obl("C18-next-anychar[miniA]", M, "next_any", env={"VF_CONF": "miniA", "VF_DP": "00", "MINI_VDIGITS": "3"}, timeout=60 if tier == "quick" else 600, expect="find", family="C18-next",
                  bound="version 'v00'+<any character> (Unicode digits included): never raises, result empty or in the pattern; bug-hunt in quick"))
     o.append(Obl("C18-reach", M, "reach", env={"MINI_VDIGITS": "3"}, timeout=100, expect="refute", family="C18-twin"))
